@@ -98,6 +98,38 @@ Definition st_set_channel (e : bool) (w : Z) : bool * Z :=
     if (negb (st_channel w) || negb (st_channel_proxy w)) && negb (st_channel_value w) then (false, w)
     else (true, st_set (st_unset w stateChannelValue) stateChannelUpdated).
 
+(* ---- what the rest of c2 does to the word ---------------------------------- *)
+(* Session.close(w) (c2/session.go): nothing when already closing; a server-side Session that has
+   not yet queued its shutdown notice drops the channel request, its notice and the channel mode and
+   keeps running; otherwise the same three flags are dropped and Closing is raised (the calls that
+   follow -- shutdown / Wake -- are not part of this model: the harness only drives the branches
+   that stop there) *)
+Definition teardown_mask : Z := 1792.   (* ChannelValue | ChannelUpdated | Channel *)
+Definition st_teardown (w : Z) : Z :=
+  st_unset (st_unset (st_unset w stateChannelValue) stateChannelUpdated) stateChannel.
+Definition st_close (server : bool) (w : Z) : Z :=
+  if st_closing w then w
+  else if server && negb (st_shutdown_wait w) then st_teardown w
+  else st_set (st_teardown w) stateClosing.
+
+(* the connHost view of the word (c2/channel.go, c2/proxy.go): kind 0 = a client-side *Session,
+   1 = a *proxyClient, 2 = a server-side *Session.  Ops: 0 stateSet v, 1 stateUnset v, 2 chanRunning,
+   3 chanStart, 4 chanStop, 5 close(false) (Sessions only) *)
+Definition host_op (kind : Z) (w : Z) (o : Z * Z) : bool * Z :=
+  let '(op, v) := o in
+  if op =? 0 then (false, st_set w v)
+  else if op =? 1 then (false, st_unset w v)
+  else if op =? 2 then (st_channel w, w)
+  else if op =? 3 then ((if kind =? 0 then negb (st_moving w) else true) && st_channel_can_start w, w)
+  else if op =? 4 then st_channel_can_stop w
+  else (false, st_close (kind =? 2) w).
+
+Fixpoint run_host (kind : Z) (w : Z) (ops : list (Z * Z)) : Z * list bool :=
+  match ops with
+  | [] => (w, [])
+  | o :: r => let '(b, w1) := host_op kind w o in let '(w2, bs) := run_host kind w1 r in (w2, b :: bs)
+  end.
+
 (* ---- specification of the predicates (the truth table) ------------------- *)
 (* Every predicate written once more, directly in terms of the bits of the word (bit i =
    Z.testbit w i, numbered as in the const block: 0 CanRecv 1 Ready 2 Closed 3 Closing 4 Shutdown
@@ -206,7 +238,9 @@ Inductive case : Type :=
 | CMut (op w v w' : Z)
 (* a sequence of calls on one word: op codes as above plus 3 Tag, 4 ChannelCanStop, 5 SetChannel(true),
    6 SetChannel(false); observed: final word and the packed return values (non-bool calls count as 0) *)
-| CSeq (w : Z) (ops : list (Z * Z)) (w' rets : Z).
+| CSeq (w : Z) (ops : list (Z * Z)) (w' rets : Z)
+(* a sequence of calls made THROUGH the connHost methods of a *Session / *proxyClient holding the word *)
+| CHost (kind w : Z) (ops : list (Z * Z)) (w' rets : Z).
 
 Definition apply_op (w : Z) (o : Z * Z) : bool * Z :=
   let '(op, v) := o in
@@ -230,4 +264,5 @@ Definition check (c : case) : bool :=
   | CBlock s f0 n dg => block_digest s f0 n =? dg
   | CMut op w v w' => snd (apply_op w (op, v)) =? w'
   | CSeq w ops w' rets => let '(w2, bs) := run_ops w ops in (w2 =? w') && (pack bs =? rets)
+  | CHost kind w ops w' rets => let '(w2, bs) := run_host kind w ops in (w2 =? w') && (pack bs =? rets)
   end.
